@@ -1074,7 +1074,7 @@ def _lazy_part(rep, tier, wd, J):
     # (curve, scenario, kind, byte-code level, callees traced too, all multipliers, points: None = every one / number to sample)
     plan = []
     for mode in ("table", "scale", "jtable", "ptable"):
-        plan += [("tiny", mode, "pt", False, True, True, None), ("tiny", mode, "pt", True, True, True, None),
+        plan += [("tiny", mode, "pt", False, True, True, None), ("tiny", mode, "pt", True, True, True, None if thorough or mode == "scale" else 600),
                  ("tiny", mode, "intr", False, True, True, None)]
     plan += [("nist256p", "table", "pt", False, False, thorough, None),
              ("nist256p", "table", "pt", False, True, False, None if thorough else 150),
@@ -1136,7 +1136,8 @@ def _lazy_part(rep, tier, wd, J):
             # ... and thread B = ONE complete operation only (rescaling, copying, serialising, verifying), at the points
             # after the construction (the last part of A's operation) and a few before
             c_ = _ctx(name)
-            sub = idxs if name == "tiny" else [x for x in idxs if x < 6 or x >= K - 120]
+            sub = ([x for x in idxs if thorough or x >= K - 250 or x % 8 == 0] if name == "tiny"
+                   else [x for x in idxs if x < 6 or x >= K - 120])
             for bp in _single_programs(c_, mode, full):
                 _expect(c_, mode, full, _program(c_, mode, full, bp), bp)
                 g2 = "%s/B=%s" % (gname, bp)
